@@ -1,15 +1,18 @@
 #!/bin/bash
 # usage: driver/try_seed.sh <seed-dir-name> <PROPERTY>[,<PROPERTY>...]   e.g. driver/try_seed.sh C15 C15,C07
-# Applies seeded/<name>/patch.diff to /repo, runs the quick tier of the given checks with evidence redirected to a scratch
-# directory (so committed evidence always comes from the unchanged tree), and restores /repo.
+# Applies seeded/<name>/patch.diff to a scratch worktree of /repo's HEAD (so /repo itself is never touched and other runs are not
+# disturbed), points the checks at it through VERIF_REPO, runs the quick tier of the given checks with evidence redirected to a
+# scratch directory (committed evidence always comes from the unchanged tree), and removes the worktree.
 set -u
 cd "$(dirname "$0")/.."
 name=$1; props=${2:-$1}
-git -C /repo diff --quiet || { echo "/repo has uncommitted changes"; exit 2; }
-git -C /repo apply "$PWD/seeded/$name/patch.diff" || { echo "patch does not apply"; exit 2; }
+wt=/dev/shm/verif-seed-wt-$$
+git -C /repo worktree add -q --detach $wt HEAD || exit 2
+trap 'git -C /repo worktree remove --force '$wt' 2>/dev/null' EXIT
+git -C $wt apply "$PWD/seeded/$name/patch.diff" || { echo "patch does not apply"; exit 2; }
+export VERIF_REPO=$wt
 export VERIF_EVIDENCE_DIR=/dev/shm/verif-seed-evidence; mkdir -p $VERIF_EVIDENCE_DIR
 for p in ${props//,/ }; do
   echo "--- seed $name vs check $p"
   timeout 3000 ./vcheck check $p --tier quick 2>&1 | grep -v "^\[vcheck\]" | grep "SUMMARY\|detail\|VIOLATION\|DEFECT" | head -4 | cut -c1-500
 done
-git -C /repo checkout -- .
